@@ -101,10 +101,7 @@ def spec_domain_match(vc, a, d):
     return Or(a == d, And(endswith(a, "." + d), Not(is_ip(vc, a))))
 
 
-DM_OPTS = dict(extra_inline_roots=HTTP_ROOT, exact_search=True, strip_facts=True, rfind_uf=True, lower_identity=True)
-CJ = "http.cookiejar:domain_match"
-from http import cookiejar as _cookiejar
-_REAL = [_cookiejar.domain_match]     # kept in a list: vc.summary patches every module-level alias of the function
+DM_OPTS = dict(extra_inline_roots=HTTP_ROOT, exact_search=True, lower_identity=True)
 
 
 def plain_host_name(vc, x):
@@ -112,13 +109,8 @@ def plain_host_name(vc, x):
     return And(rx(vc, x, "hostchars"), len_(x) > 0, Not(startswith(x, ".")), Not(endswith(x, ".")), rx(vc, x, "ends_in_letter"))
 
 
-def K_inner(a, d):
-    """KF-C54-1: the cookie domain occurs inside the host name but not at its end (rfind instead of a suffix test)"""
-    return And(contains(a, "." + d), Not(endswith(a, "." + d)), a != d)
-
-
 def ends_with_dot_digits(vc, a):
-    """the text ends in "." digits (optionally followed by a newline): what the library takes for an IPv4 address"""
+    """the text ends in "." digits (optionally followed by a newline): what http.cookiejar.is_HDN takes for an IPv4 address"""
     if vc.mode == "native" or not is_sym(a):
         import re
         return re.search(r"\.[0-9]+$", a) is not None
@@ -126,20 +118,10 @@ def ends_with_dot_digits(vc, a):
     return SBool(z3.InRe(a.t, z3.Concat(z3.Full(z3.ReSort(z3.StringSort())), _lit(z3, "."), z3.Plus(_d(z3)), z3.Option(_lit(z3, "\n")))))
 
 
-def library_hdn(vc, a):
-    """intermediate lemma vocabulary: non-empty, no leading/trailing dot, does not end in .digits"""
-    return And(len_(a) > 0, Not(startswith(a, ".")), Not(endswith(a, ".")), Not(ends_with_dot_digits(vc, a)))
-
-
-def library_post(vc, A, B, r):
-    """Proved post-condition of http.cookiejar.domain_match(A, B) on canonical input (scenario cookiejar.domain_match) =
-    assumed contract of the call inside stickycookie.domain_match (scenario domain_match.*).  An intermediate lemma: the
-    obligations taken from RFC 6265 are stated on stickycookie.domain_match."""
-    return [
-        ("lib.true_only_if_equal_or_dotted_inner_match", Implies(And(r, A != B), And(startswith(B, "."), contains(A, B), library_hdn(vc, A)))),
-        ("lib.equal_matches", Implies(A == B, r)),
-        ("lib.dotted_suffix_of_hostname_matches", Implies(And(startswith(B, "."), library_hdn(vc, A), library_hdn(vc, B[1:]), contains(A, B)), r)),
-    ]
+def lemma(vc, name, cond):
+    """cut: prove cond on this path, then use it"""
+    vc.ensure("lemma." + name, cond)
+    vc.assume(cond)
 
 
 def _bool_result(vc, out):
@@ -153,59 +135,22 @@ def _bool_result(vc, out):
     return r
 
 
-@scenario("cookiejar.domain_match", functions=[CJ, "http.cookiejar:is_HDN"], z3_timeout_ms=2000, **DM_OPTS)
-def s_cj(vc):
-    """The standard library function that actually runs (pure Python, interpreted from its source, not trusted)."""
-    A = vc.sym_str("A")
-    B = vc.sym_str("B")
-    vc.assume(And(rx(vc, A, "canonical"), rx(vc, B, "canonical")))
-    r = _bool_result(vc, vc.call(CJ, A, B))
-    if r is None:
-        return
-    for name, cond in library_post(vc, A, B, r):
-        vc.ensure(name, cond)
-
-
-def install_library_contract(vc):
-    """http.cookiejar.domain_match(A, B) replaced by its proved contract (library_post), case-split so that every path
-    carries unconditional facts"""
-
-    def summ(v, A, B):
-        if v.mode == "native":
-            return _REAL[0](A, B)
-        if v.branch(A == B):
-            return True                                   # lib.equal_matches
-        r = v.fresh_bool("cj_dm")
-        if v.branch(r):
-            v.assume(And(startswith(B, "."), contains(A, B), library_hdn(v, A)))     # lib.true_only_if_...
-            return True
-        v.assume(Not(And(startswith(B, "."), library_hdn(v, A), library_hdn(v, B[1:]), contains(A, B))))   # lib.dotted_suffix_...
-        return False
-
-    vc.summary(CJ, summ)
-
-
-def lemma(vc, name, cond):
-    """cut: prove cond on this path, then use it"""
-    vc.ensure("lemma." + name, cond)
-    vc.assume(cond)
-
-
-@scenario("domain_match.wellformed", functions=[M + ":domain_match"], **DM_OPTS)
+@scenario("domain_match", functions=[M + ":domain_match", "http.cookiejar:is_HDN"], **DM_OPTS)
 def s_dm(vc):
-    """Domain attribute = optional leading dot ++ d, d non-empty without leading/trailing dot; canonical (lower-case) inputs."""
+    """Domain attribute b = optional leading dot ++ d with d (the RFC 6265 5.2.3 cookie-domain) non-empty; canonical (ASCII
+    lower-case) inputs.  Every b with a non-empty cookie-domain has exactly one such decomposition."""
     a = vc.sym_str("a")
     d = vc.sym_str("d")
     lead = vc.case("leading_dot", ["", "."])
     b = lead + d
     vc.assume(And(rx(vc, a, "canonical"), rx(vc, d, "canonical")))
-    vc.assume(len_(d) > 0)     # RFC 6265 §5.2.3: empty Domain attribute value => behaviour undefined / attribute ignored
-    vc.assume(And(Not(startswith(d, ".")), Not(endswith(d, "."))))
-    install_library_contract(vc)
+    vc.assume(len_(d) > 0)     # RFC 6265 5.2.3: empty Domain attribute value => behaviour undefined / attribute ignored
+    if lead == "":
+        vc.assume(Not(startswith(d, ".")))
     r = _bool_result(vc, vc.call(M + ":domain_match", a, b))
     if r is None:
         return
-    vc.ensure_kf("sound.suffix_or_equal", Implies(r, Or(a == d, endswith(a, "." + d))), "KF-C54-1", K_inner(a, d))
+    vc.ensure("sound.suffix_or_equal", Implies(r, Or(a == d, endswith(a, "." + d))))
     if vc.branch(And(r, a != d)):
         if vc.branch(a == b):
             # only with a leading dot: the "host" is the dotted Domain attribute itself -- no address starts with a dot
@@ -215,48 +160,42 @@ def s_dm(vc):
             lemma(vc, "host_does_not_end_in_dot_digits", Not(ends_with_dot_digits(vc, a)))
         vc.ensure("sound.not_an_ipv4_address", Not(rx(vc, a, "ip4")))
         vc.ensure("sound.not_an_ipv6_address", Not(rx(vc, a, "ip6")))
-    # non-vacuity (not demanded by the statement): ordinary host names match themselves and their dotted parent domains
+    # converse (non-vacuity; the statement only demands the direction above)
     if vc.branch(a == d):
         vc.ensure("complete.equal_host", r)
     else:
         host_like = And(plain_host_name(vc, a), plain_host_name(vc, d))
         if lead == ".":
-            for nm, x in (("host", a), ("domain", d)):
-                lemma(vc, nm + "_name_does_not_end_in_dot_digits", Implies(rx(vc, x, "ends_in_letter"), Not(ends_with_dot_digits(vc, x))))
-            lemma(vc, "suffix_is_substring", Implies(endswith(a, "." + d), contains(a, "." + d)))
+            lemma(vc, "host_name_does_not_end_in_dot_digits", Implies(rx(vc, a, "ends_in_letter"), Not(ends_with_dot_digits(vc, a))))
             vc.ensure("complete.dotted_parent_domain", Implies(And(host_like, endswith(a, "." + d)), r))
         else:
-            # KF-C54-4: Domain=example.com (RFC 6265 form, no leading dot) never matches a sub-domain host (the library
-            # implements RFC 2965); consequence for the statement: an expiring Set-Cookie from a.example.com does not
-            # remove the example.com cookie from the jar.  The whole class is the finding (nothing to prove outside it).
+            # KF-C54-4: Domain=example.com (RFC 6265 form, no leading dot) never matches a sub-domain host: the jar key cannot
+            # tell a host-only cookie from a Domain cookie, so only the dotted form matches sub-domains.  Consequence for the
+            # statement: an expiring Set-Cookie from a.example.com does not remove the example.com cookie from the jar.
             K4 = And(host_like, endswith(a, "." + d))
             vc.ensure_kf("complete.undotted_parent_domain", Implies(K4, r), "KF-C54-4", K4)
 
 
-@scenario("domain_match.malformed_domain", functions=[M + ":domain_match"], **DM_OPTS)
-def s_dm_mal(vc):
-    """Domain attribute values with further leading dots or trailing dots (not a valid domain-value, RFC 6265 §4.1.1)."""
-    a = vc.sym_str("a")
-    b = vc.sym_str("b")
-    d = cookie_domain(b)
-    vc.assume(And(rx(vc, a, "canonical"), rx(vc, b, "canonical")))
-    vc.assume(len_(d) > 0)
-    vc.assume(Or(startswith(d, "."), endswith(d, ".")))
-    install_library_contract(vc)
-    r = _bool_result(vc, vc.call(M + ":domain_match", a, b))
+PM = M + ":path_match"
+
+
+@scenario("path_match", functions=[PM])
+def s_pm(vc):
+    """RFC 6265 5.1.4 on request target = uri-path [ "?" query ]"""
+    rp, q, c = vc.sym_str("uri_path"), vc.sym_str("query"), vc.sym_str("cookie_path")
+    has_query = vc.case("has_query", [False, True])
+    if vc.mode == "sym":
+        z3 = _z3()
+        vc.assume(SBool(z3.Not(z3.Contains(rp.t, z3.StringVal("?")))))
+    else:
+        vc.assume("?" not in rp)
+    target = rp + "?" + q if has_query else rp
+    r = _bool_result(vc, vc.call(PM, target, c))
     if r is None:
         return
-    # KF-C54-3: b.strip(".") removes more than the one leading dot (further leading dots, trailing dots)
-    K3 = And(a == strip_dots(vc, b), a != d)
-    vc.ensure_kf("sound.rfc_domain_match", Implies(And(r, Not(K_inner(a, d))), spec_domain_match(vc, a, d)), "KF-C54-3", K3)
-
-
-def strip_dots(vc, b):
-    if vc.mode == "native" or not is_sym(b):
-        return b.strip(".")
-    from pyvc import lib
-    z3 = _z3()
-    return SStr(lib.uf("strip_'.'", z3.StringSort(), z3.StringSort())(b.t))
+    spec = spec_path_match_rp(rp, c)
+    vc.ensure("true_only_if_rfc_path_match", Implies(r, spec))
+    vc.ensure("true_if_rfc_path_match", Implies(spec, r))
 
 
 # ---------------------------------------------------------------------------------------------
@@ -455,7 +394,7 @@ def header_fields(vc, req):
     return [list(x.items) if isinstance(x, STuple) else list(x) for x in (f.items if isinstance(f, (STuple, SList)) else f)]
 
 
-@scenario("request", functions=[SC + ".request"], z3_timeout_ms=3000)
+@scenario("request", functions=[SC + ".request"])
 def s_request(vc):
     has_flt = vc.case("filter_set", [True, False])
     hshape = vc.case("headers", list(HEADERS_PRE))
@@ -486,6 +425,15 @@ def s_request(vc):
     dm_calls = []
     dms = [vc.sym_bool("dm0"), vc.sym_bool("dm1")]
     install_dm_stub(vc, dm_calls, dms)
+    # path_match has its own contract (scenario path_match): here an arbitrary predicate with recorded arguments
+    pm_calls = []
+    pms = [vc.sym_bool("pm0"), vc.sym_bool("pm1")]
+
+    def pm_stub(v, rpath_, cpath_):
+        pm_calls.append((rpath_, cpath_))
+        return pms[len(pm_calls) - 1]
+
+    vc.summary(PM, pm_stub)
     formatted = []
 
     def fmt(v, lst):
@@ -517,12 +465,10 @@ def s_request(vc):
     for j in range(2):
         d_j, p_j, c_j = keys[j]
         vc.ensure(f"entry{j}.domain_matched_against_request_host", True if j >= len(dm_calls) else deep_eq(vc, list(dm_calls[j]), [host, d_j]))
-        spec_j = And(dms[j], port == p_j, spec_path_match_rp(rpath, c_j))
-        # KF-C54-2: bare prefix test on the whole request target: "/foo" is taken to match "/foobar"
-        K2 = And(dms[j], port == p_j, startswith(path, c_j), Not(spec_path_match_rp(rpath, c_j)))
-        vc.ensure_kf(f"entry{j}.attached_only_if_domain_port_and_path_match", Implies(took[j], spec_j), "KF-C54-2", K2)
-        if not has_query:   # converse (non-vacuity; not demanded by the statement), stated for targets without a query
-            vc.ensure(f"entry{j}.attached_if_domain_port_and_path_match", Implies(spec_j, took[j]))
+        vc.ensure(f"entry{j}.path_matched_against_request_target", True if j >= len(pm_calls) else deep_eq(vc, list(pm_calls[j]), [path, c_j]))
+        spec_j = And(dms[j], port == p_j, pms[j])
+        vc.ensure(f"entry{j}.attached_only_if_domain_port_and_path_match", Implies(took[j], spec_j))
+        vc.ensure(f"entry{j}.attached_if_domain_port_and_path_match", Implies(spec_j, took[j]))
     exp = [list(kv) for j in range(2) if took[j] for kv in items[j]]
     vc.ensure("list.exactly_the_cookies_of_attached_entries_in_jar_order", deep_eq(vc, observed, exp))
     if observed:
@@ -538,9 +484,8 @@ def s_request(vc):
 ASSUMPTIONS = [
     "T1 domain_match: host and Domain attribute are canonical ASCII lower-case text (RFC 6265 canonicalises both before matching), so str.lower() is the identity; case-insensitivity is exercised in T2 only",
     "T1 domain_match: Domain attribute non-empty after removing one leading dot (RFC 6265 5.2.3: empty value => attribute ignored / undefined)",
-    "http.cookiejar.domain_match / is_HDN are interpreted from the standard library's source (scenario cookiejar.domain_match); inside stickycookie.domain_match the call is replaced by exactly the post-condition proved there",
-    "re.Pattern.search for IPV4_RE (r'\\.\\d+$', re.ASCII) is the SMT regular-language membership (translated from CPython's own parse tree); str.strip('.') is an uninterpreted function with true facts (result clean, identity on clean input, one-character unfolding); str.rfind by its last-occurrence characterisation",
-    "T1 response/request: stickycookie.domain_match is an arbitrary predicate with recorded arguments (its contract is separate); Set-Cookie parsing (Response.cookies), cookies.is_expired, flowfilter.match and cookies.format_cookie_header are abstracted (exercised for real in T2)",
+    "http.cookiejar.is_HDN is interpreted from the standard library's source (not trusted); re.Pattern.search for its IPV4_RE (r'\\.\\d+$', re.ASCII) is the SMT regular-language membership translated from CPython's own parse tree",
+    "T1 response/request: stickycookie.domain_match and path_match are arbitrary predicates with recorded arguments (their contracts are the scenarios domain_match / path_match); Set-Cookie parsing (Response.cookies), cookies.is_expired, flowfilter.match and cookies.format_cookie_header are abstracted (exercised for real in T2)",
     "all histories: the jar invariant 'an entry (domain, port, path) -> {name: value} was stored by a response whose ckey is that triple and whose host passed domain_match' is established by scenario response (one parsed cookie per call; the loop body treats each cookie independently) and used entry-wise by scenario request (the loop body treats each jar entry independently, so two entries with symbolic keys stand for any number)",
     "T1 request: jar with two entries (2 + 1 cookies) and symbolic keys; request target ASCII; the cookie path of a cookie without Path attribute is '/' (mitmproxy's choice; RFC 6265 5.1.4 default-path would be the directory of the setting request's path)",
 ]
@@ -579,9 +524,9 @@ def _domain_defect(host, dattr):
     h, d = host.lower(), dattr.lower()
     d1 = d[1:] if d.startswith(".") else d
     if h == d.strip(".") and h != d1:
-        return "sticky.domain_match.overstripped_dots[KF-C54-3]"
+        return "sticky.domain_match.overstripped_dots"
     if ("." + d1) in h and not h.endswith("." + d1):
-        return "sticky.domain_match.inner_substring[KF-C54-1]"
+        return "sticky.domain_match.inner_substring"
     return None
 
 
@@ -700,7 +645,7 @@ def bounded(tier, seed):
                         b.fail(cls or ("sticky.host_only_cookie_only_to_identical_host" if o["dattr"] is None else "sticky.attached_only_if_domain_matches"), inp, f"Cookie: {got}")
                     else:
                         bare = qtarget.startswith(o["path"])
-                        b.fail("sticky.path_match.bare_prefix[KF-C54-2]" if bare else "sticky.attached_only_if_path_matches", inp, f"Cookie: {got} (cookie path {o['path']})")
+                        b.fail("sticky.path_match.bare_prefix" if bare else "sticky.attached_only_if_path_matches", inp, f"Cookie: {got} (cookie path {o['path']})")
                 # converse (sanity): a live origin that matches by RFC 6265 (host-only identical host, or dotted Domain) is attached
                 for o in live:
                     hostlike = not _ref_is_ip(qhost.lower())
